@@ -1244,11 +1244,11 @@ Proof.
   destruct (file_fetch (mkDesc (k_mt k) (k_dig k) (k_size k) 0) s) as [c2|] eqn:Ef; [|now apply IH].
   destruct (file_fetch_inv _ _ _ Hinv Ef) as [_ Hok].
   set (c2' := match get N.eqb (k_dig k) (f_d2p s) with
-              | Some p => if p =? path_of n then mkBlob 0 0 [] 0 [] else c2
+              | Some p => if (p =? path_of n) && negb (b_len c2 =? 0) then mkBlob 0 0 [] 0 [] else c2
               | None => c2 end).
   assert (Hok' : titles_ok c2').
   { unfold c2'. destruct (get N.eqb (k_dig k) (f_d2p s)); auto.
-    destruct (n0 =? path_of n); auto using titles_ok_empty. }
+    destruct ((n0 =? path_of n) && negb (b_len c2 =? 0)); auto using titles_ok_empty. }
   pose proof (file_named_push_inv ov s k n c2' Hinv (Ht k n (or_introl eq_refl)) Hok') as H1.
   destruct (file_named_push true ov s k n c2') as [s1 [e|]]; cbn [fst] in H1.
   - destruct e as [o|[| |]]; try exact H1. now apply IH.
